@@ -312,3 +312,58 @@ theorem fold_attained (req : List (String × Nat)) : ∀ (t : List (String × Na
     · exact Or.inr ⟨p, List.mem_cons_of_mem _ hp, hpd, hpv⟩
 
 end Func
+
+namespace Func
+
+/-! ### keys of a policy table: normalised and unique -/
+theorem norm_norm (d : String) : norm (norm d) = norm d := by
+  unfold norm; split <;> simp_all
+
+theorem bump_keys (t : List (String × Nat)) (d : String) (v : Nat) :
+    (bump t d v).map (·.1) = if d ∈ t.map (·.1) then t.map (·.1) else t.map (·.1) ++ [d] := by
+  induction t with
+  | nil => simp [bump]
+  | cons p t ih =>
+    obtain ⟨d', v'⟩ := p
+    simp only [bump]
+    by_cases h : d' = d
+    · subst h; simp
+    · have hb : (d' == d) = false := by simpa using h
+      have hne : ¬ d = d' := fun e => h e.symm
+      simp only [hb, Bool.false_eq_true, ↓reduceIte, List.map_cons, ih, List.mem_cons, hne, false_or]
+      split <;> simp
+
+structure KInv (t : List (String × Nat)) : Prop where
+  nodup : (t.map (·.1)).Nodup
+  normed : ∀ k ∈ t.map (·.1), norm k = k
+
+theorem KInv.bump {t : List (String × Nat)} (h : KInv t) (d : String) (v : Nat) : KInv (bump t (norm d) v) := by
+  constructor
+  · rw [bump_keys]
+    split
+    · exact h.nodup
+    · rename_i hn
+      rw [List.nodup_append]
+      exact ⟨h.nodup, by simp, fun a ha b hb hab => by simp at hb; subst hb; subst hab; exact hn ha⟩
+  · intro k hk
+    rw [bump_keys] at hk
+    split at hk
+    · exact h.normed k hk
+    · rcases List.mem_append.mp hk with h1 | h1
+      · exact h.normed k h1
+      · simp at h1; subst h1; exact norm_norm d
+
+theorem KInv.fold (req : List (String × Nat)) : ∀ {t : List (String × Nat)}, KInv t →
+    KInv (req.foldl (fun t p => Func.bump t (norm p.1) p.2) t) := by
+  induction req with
+  | nil => intro t h; exact h
+  | cons p req ih => intro t h; exact ih (h.bump p.1 p.2)
+
+theorem policy_kinv (req : List (String × Nat)) : KInv (policy req) :=
+  KInv.fold req ⟨by simp, by simp⟩
+
+theorem getV_of_mem {t : List (String × Nat)} (h : KInv t) {d : String} {v : Nat} (hm : (d, v) ∈ t) :
+    getV t d = some v :=
+  lookup_of_mem_nodup (κ := String) (β := Nat) h.nodup hm
+
+end Func
